@@ -27,6 +27,13 @@ type judge struct {
 	nNonText                              int
 	nParas                                int
 	ambiguous                             int
+	nLenientLoopsItems                    int // ... loop markers among them whose list has items
+	nLenientLoops, nLenientImgs           int // directives in an undocumented spelling (white space) met in the base
+	nLenientProcessed, nLenientUntouched  int // which reading held
+
+	// condChoice: how the conditional blocks of a paragraph are read (0 left alone, 1 body kept, 2 else part kept, 3 dropped)
+	condChoice       int
+	nConds, nCondHit int // conditional blocks met / read as processed
 
 	// d25: set while walking blocks that follow, in the same container, an image-placeholder paragraph which expands into
 	// several paragraphs when a later block of that container also holds an image placeholder (see KF-C18-image-slice)
@@ -112,11 +119,48 @@ func (j *judge) substitute(bp *para, scope map[string]string, loopRow bool, ctx 
 		repl   string
 		remove bool
 		sup    bool
+		cond   bool // conditional block: the characters [keepS,keepE) stay, the rest of the span goes
+		keepS  int
+		keepE  int
 	}
 	var edits []edit
 	for _, sp := range scanVars(rs) {
 		v, ok := scope[sp.name]
 		edits = append(edits, edit{span: sp, repl: v, sup: ok})
+	}
+	var conds []condSpan
+	if !loopRow {
+		conds = scanConds(rs)
+	}
+	if len(conds) > 0 {
+		// a conditional block is one unit: placeholders the scanner sees inside it are not judged separately
+		kept := edits[:0]
+		for _, ed := range edits {
+			inside := false
+			for _, c := range conds {
+				if ed.s < c.e && ed.e > c.s {
+					inside = true
+				}
+			}
+			if !inside {
+				kept = append(kept, ed)
+			}
+		}
+		edits = kept
+		for _, c := range conds {
+			ed := edit{span: c.span, cond: true}
+			switch {
+			case j.condChoice == 1:
+				ed.keepS, ed.keepE = c.bodyS, c.bodyE
+			case j.condChoice == 2 && c.elseS >= 0:
+				ed.keepS, ed.keepE = c.elseS, c.elseE
+			case j.condChoice >= 2:
+				ed.keepS, ed.keepE = c.s, c.s
+			default:
+				ed.keepS, ed.keepE = c.s, c.e
+			}
+			edits = append(edits, ed)
+		}
 	}
 	if loopRow {
 		for _, sp := range scanDirective(rs, "each") {
@@ -145,6 +189,12 @@ func (j *judge) substitute(bp *para, scope map[string]string, loopRow bool, ctx 
 			spanFmts[txt[k].fmt] = true
 		}
 		switch {
+		case ed.cond:
+			for k := ed.keepS; k < ed.keepE; k++ {
+				e.txt = append(e.txt, txt[k])
+				e.cls = append(e.cls, clsLit)
+			}
+			shift += (ed.keepE - ed.keepS) - (ed.e - ed.s)
 		case ed.remove:
 			e.info.loopRowMarks = true
 			shift -= ed.e - ed.s
@@ -369,11 +419,43 @@ func (j *judge) walkBlocks(path, ctx string, bb, ob []block, scope map[string]st
 		if b.p != nil {
 			rs := []rune(b.p.text())
 			if imgs := scanDirective(rs, "image"); len(imgs) > 0 && !loopRow {
-				n, ok := j.imageGroup(bpath, ctx, b.p, ob, k, scope)
-				if !ok {
+				lenient := 0
+				for _, sp := range imgs {
+					if sp.lenient {
+						lenient++
+					}
+				}
+				if lenient == 0 {
+					n, ok := j.imageGroup(bpath, ctx, b.p, ob, k, scope, false)
+					if !ok {
+						return // cannot re-synchronise
+					}
+					k += n
+					continue
+				}
+				// image placeholders in an undocumented spelling: all of them are pictures, or they are all literal text
+				j.nLenientImgs += lenient
+				var n [2]int
+				var ok [2]bool
+				held := j.eitherReading("image", sprintf("the spelling of an image placeholder in %q (%s)", string(rs), bpath),
+					func(x *judge) { n[0], ok[0] = x.imageGroup(bpath, ctx, b.p, ob, k, scope, false) },
+					func(x *judge) {
+						if lenient < len(imgs) {
+							n[1], ok[1] = x.imageGroup(bpath, ctx, b.p, ob, k, scope, true)
+							return
+						}
+						if k >= len(ob) || ob[k].p == nil {
+							x.res.Eval("C18.W5.order")
+							x.res.Fail("C18.W5.order", "%s %s: no paragraph rendered in its place (%d blocks rendered, base has %d)", x.ctag(ctx), bpath, len(ob), len(bb))
+							return
+						}
+						x.comparePara(bpath, x.substitute(b.p, scope, false, ctx), b.p, ob[k].p, true)
+						n[1], ok[1] = 1, true
+					})
+				if !ok[held] {
 					return // cannot re-synchronise
 				}
-				k += n
+				k += n[held]
 				continue
 			}
 		}
@@ -391,6 +473,10 @@ func (j *judge) walkBlocks(path, ctx string, bb, ob []block, scope map[string]st
 		switch {
 		case b.p != nil:
 			pctx := ctx
+			if nc := len(scanConds([]rune(b.p.text()))); nc > 0 && !loopRow {
+				j.condPara(bpath, pctx, b.p, o.p, scope, nc)
+				break
+			}
 			e := j.substitute(b.p, scope, loopRow, pctx)
 			j.comparePara(bpath, e, b.p, o.p, true)
 		case b.t != nil:
@@ -477,7 +563,8 @@ func (v *pkgView) sectSig(n interface{ String() string }) string {
 }
 
 // imageGroup matches the rendered blocks that replace a base paragraph holding image placeholders.
-func (j *judge) imageGroup(path, ctx string, bp *para, ob []block, k int, scope map[string]string) (consumed int, ok bool) {
+// strictOnly: only placeholders in the documented spelling are pictures, the others are literal text.
+func (j *judge) imageGroup(path, ctx string, bp *para, ob []block, k int, scope map[string]string, strictOnly bool) (consumed int, ok bool) {
 	res := j.res
 	e := j.substitute(bp, scope, false, "imagepara:"+ctx)
 	if len(e.non) > 0 || e.ambig {
@@ -490,6 +577,15 @@ func (j *judge) imageGroup(path, ctx string, bp *para, ob []block, k int, scope 
 		rs[i] = a.ch
 	}
 	imgs := scanDirective(rs, "image")
+	if strictOnly {
+		var doc []span
+		for _, sp := range imgs {
+			if !sp.lenient {
+				doc = append(doc, sp)
+			}
+		}
+		imgs = doc
+	}
 	withData, without := 0, 0
 	for _, sp := range imgs {
 		if _, has := j.c.Data.Imgs[sp.name]; has {
@@ -594,7 +690,7 @@ func (j *judge) imageGroup(path, ctx string, bp *para, ob []block, k int, scope 
 // ---------------------------------------------------------------------------------------------
 // tables
 
-func loopRowOf(t *table) (idx int, list string) {
+func loopRowOf(t *table) (idx int, list string, marker span) {
 	for ri, r := range t.rows {
 		for _, c := range r.cells {
 			for _, b := range c.blocks {
@@ -602,15 +698,158 @@ func loopRowOf(t *table) (idx int, list string) {
 					continue
 				}
 				if sp := scanDirective([]rune(b.p.text()), "each"); len(sp) > 0 {
-					return ri, sp[0].name
+					return ri, sp[0].name, sp[0]
 				}
 			}
 		}
 	}
-	return -1, ""
+	return -1, "", span{}
+}
+
+// ---------------------------------------------------------------------------------------------
+// readings: a directive in a spelling the documentation does not show (scan.go: lenient) may be taken by the library as
+// the directive - then it has to be processed completely, exactly like the documented spelling - or as the literal text
+// it is by the documentation - then it has to be left completely alone. Each reading is judged on a fork of the judge;
+// the first reading without a failure is adopted. If neither holds (e.g. the row was expanded but its marker is still
+// there) the failures of the closer reading are reported.
+
+func (j *judge) attempt(f func(x *judge)) *judge {
+	x := *j
+	x.res = &kit.Result{}
+	f(&x)
+	return &x
+}
+
+func (j *judge) adopt(x *judge) {
+	res := j.res
+	res.Failures = append(res.Failures, x.res.Failures...)
+	for k, n := range x.res.Clauses {
+		for i := 0; i < n; i++ {
+			res.Eval(k)
+		}
+	}
+	for k, n := range x.res.Counts {
+		res.Count(k, n)
+	}
+	*j = *x
+	j.res = res
+}
+
+// eitherReading judges `processed` and, if that fails, `untouched`; what names the directive in a failure report.
+// It returns the reading that was adopted (0 processed, 1 untouched).
+func (j *judge) eitherReading(kind, what string, processed, untouched func(x *judge)) int {
+	a := j.attempt(processed)
+	if len(a.res.Failures) == 0 {
+		j.res.Count("lenient_"+kind+":processed", 1)
+		a.nLenientProcessed++
+		j.adopt(a)
+		return 0
+	}
+	b := j.attempt(untouched)
+	if len(b.res.Failures) == 0 {
+		j.res.Count("lenient_"+kind+":untouched", 1)
+		b.nLenientUntouched++
+		j.adopt(b)
+		return 1
+	}
+	// the closer reading: the one without a structural mismatch (row / block count), then the one with fewer failures
+	score := func(x *judge) int {
+		n := len(x.res.Failures)
+		for _, f := range x.res.Failures {
+			if strings.HasPrefix(f.Clause, "C18.W4.rows") || strings.HasPrefix(f.Clause, "C18.W5.order") || strings.HasPrefix(f.Clause, "C18.W6") {
+				n += 1000
+			}
+		}
+		return n
+	}
+	pick, shown, held := a, "processed", 0
+	if score(b) < score(a) {
+		pick, shown, held = b, "untouched", 1
+	}
+	note := sprintf(" [%s is not the documented spelling: it must be processed completely like the documented one or left completely alone; neither reading holds (%d / %d failures), shown: the %s reading]", what, len(a.res.Failures), len(b.res.Failures), shown)
+	for i := range pick.res.Failures {
+		d := pick.res.Failures[i].Detail
+		if len(d) > 1100 {
+			d = d[:1100] + "…"
+		}
+		pick.res.Failures[i].Detail = d + note
+	}
+	j.adopt(pick)
+	return held
+}
+
+// condPara judges a paragraph holding conditional blocks. The statement says nothing about conditionals, so nothing is
+// demanded about WHICH way a block goes: it may stay as it is, be replaced by its body or by its else part, or vanish (the
+// same way for every block of the paragraph). Everything else of the paragraph is judged as usual, and a block that is
+// neither intact nor one of its own parts (markers left behind, text outside it touched) fails W1.
+func (j *judge) condPara(path, ctx string, bp, op *para, scope map[string]string, n int) {
+	var first *judge
+	for choice := 0; choice < 4; choice++ {
+		x := j.attempt(func(x *judge) {
+			x.condChoice = choice
+			x.comparePara(path, x.substitute(bp, scope, false, ctx), bp, op, true)
+		})
+		x.condChoice = j.condChoice
+		if len(x.res.Failures) == 0 {
+			x.nConds += n
+			if choice > 0 {
+				x.nCondHit += n
+			}
+			j.adopt(x)
+			return
+		}
+		if first == nil {
+			first = x
+		}
+	}
+	for i := range first.res.Failures {
+		d := first.res.Failures[i].Detail
+		if len(d) > 1100 {
+			d = d[:1100] + "…"
+		}
+		first.res.Failures[i].Detail = d + " [the paragraph holds a conditional block: no reading of it (left alone, body kept, else part kept, dropped) matches; shown: left alone]"
+	}
+	first.nConds += n
+	j.adopt(first)
 }
 
 func (j *judge) compareTable(path, ctx string, bt, ot *table, scope map[string]string) {
+	li, list, marker := loopRowOf(bt)
+	if li >= 0 && marker.lenient {
+		if items, supplied := j.c.Data.Lists[list]; supplied {
+			j.nLenientLoops++
+			if len(items) > 0 {
+				j.nLenientLoopsItems++
+			}
+			what := sprintf("the loop marker %q of %s/tr[%d]", "{{#each"+markerBlanks(bt, li)+list+"}}", path, li)
+			j.eitherReading("loop", what,
+				func(x *judge) { x.compareTableAs(path, ctx, bt, ot, scope, li, list) },
+				func(x *judge) { x.compareTableAs(path, ctx, bt, ot, scope, -1, "") })
+			return
+		}
+	}
+	j.compareTableAs(path, ctx, bt, ot, scope, li, list)
+}
+
+// markerBlanks returns the white space between "#each" and the list name of the first loop marker of row li.
+func markerBlanks(t *table, li int) string {
+	for _, c := range t.rows[li].cells {
+		for _, b := range c.blocks {
+			if b.p == nil {
+				continue
+			}
+			rs := []rune(b.p.text())
+			if sp := scanDirective(rs, "each"); len(sp) > 0 {
+				inner := rs[sp[0].s+len("{{#each") : sp[0].e-2]
+				return string(inner[:len(inner)-len([]rune(sp[0].name))])
+			}
+		}
+	}
+	return " "
+}
+
+// compareTableAs judges a table with row li read as the loop row over list (li < 0: no row is a loop row).
+func (j *judge) compareTableAs(path, ctx string, bt, ot *table, scope map[string]string, li int, list string) {
 	res := j.res
 	res.Eval("C18.W4.props")
 	if bt.tblPr != ot.tblPr {
@@ -627,7 +866,6 @@ func (j *judge) compareTable(path, ctx string, bt, ot *table, scope map[string]s
 		label string
 	}
 	var exp []erow
-	li, list := loopRowOf(bt)
 	if li < 0 {
 		for i := range bt.rows {
 			exp = append(exp, erow{&bt.rows[i], scope, false, ctx, sprintf("tr[%d]", i)})
